@@ -186,12 +186,29 @@ func genC19(t *rapid.T) *Case {
 			}
 		}
 		ex.Origins = append(ex.Origins, o)
+		// an embed inside a nested structure (list item, ordinary quote), not only between paragraphs
+		switch g.intn(0, 7, "embwrap") {
+		case 0:
+			el = "<ul><li>" + g.words(g.intn(3, 12, "embliw")) + " " + el + "</li><li>" + g.words(g.intn(3, 12, "embliw2")) + "</li></ul>"
+		case 1:
+			if o.Tag != "blockquote" {
+				el = "<blockquote><p>" + g.words(g.intn(5, 20, "embbqw")) + "</p>" + el + "</blockquote>"
+			}
+		}
 		b.WriteString(el + "\n")
 		if g.chance(50, "between") {
 			b.WriteString(g.longPara(20, 50))
 		}
 		if g.chance(20, "otherframe") {
-			b.WriteString(g.otherFrame())
+			switch g.intn(0, 3, "otherframeplace") {
+			case 0:
+				// a frame inside the <picture> of a figure (pictures are copied into the output)
+				b.WriteString(`<figure><picture><source srcset="/img/` + g.tokp("i") + `.webp"><img src="/img/` + g.tokp("i") + `.png" width="800" height="600">` + strings.TrimSpace(g.otherFrame()) + `</picture><figcaption>` + g.words(4) + "</figcaption></figure>\n")
+			case 1:
+				b.WriteString("<figure>" + strings.TrimSpace(g.otherFrame()) + `<img src="/img/` + g.tokp("i") + `.png" width="800" height="600"><figcaption>` + g.words(4) + "</figcaption></figure>\n")
+			default:
+				b.WriteString(g.otherFrame())
+			}
 		}
 	}
 	b.WriteString(g.longPara(30, 60))
